@@ -292,9 +292,9 @@ class SimSink(Component):
         self.try_connect(start_time)
 
     def _notified(self, name, t):
-        if self.status in (ComponentStatus.VALIDATED, ComponentStatus.UPDATED, ComponentStatus.CONNECTED):
-            d = self.inputs[name].pull_data(t)
-            self.pulls[name].append((len(self.pulls[name]), tick(t), mag(d)))
+        # like finam's DebugPushConsumer: pull on every notification, also for the initial publications
+        d = self.inputs[name].pull_data(t)
+        self.pulls[name].append((len(self.pulls[name]), tick(t), mag(d)))
 
     def _validate(self):
         pass
@@ -498,9 +498,13 @@ class World:
                        if ci not in sc.get("left_out", ()))
         try:
             self.rec.phase = "connect"
-            self.composition.connect(start)
-            self.rec.phase = "run"
-            self.composition.run(end_time=dt(sc["end"]) if has_time else None)
+            if sc.get("run_only"):
+                # run() performs the connect phase itself
+                self.composition.run(start_time=start, end_time=dt(sc["end"]) if has_time else None)
+            else:
+                self.composition.connect(start)
+                self.rec.phase = "run"
+                self.composition.run(end_time=dt(sc["end"]) if has_time else None)
             self.rec.phase = "done"
             return "ok", None
         except BudgetExceeded as e:
